@@ -22,16 +22,27 @@ def specNew (my other : List (Nat × Nat)) : List Nat :=
 def specRemoved (my other : List (Nat × Nat)) : List Nat :=
   (my.filter fun e => (lookupHead other e.1).isNone).map (·.1)
 
+/-- `e` of `my` is on both sides and the heads satisfy `rel otherHead myHead` -/
+def filterRel (other : List (Nat × Nat)) (rel : Nat → Nat → Bool) (e : Nat × Nat) : Bool :=
+  match lookupHead other e.1 with
+  | some h => rel h e.2
+  | none => false
+
+def relNe (h h' : Nat) : Bool := decide (h ≠ h')
+def relOur (h h' : Nat) : Bool := decide (h ≠ h' ∧ ¬ h > h')
+def relTheir (h h' : Nat) : Bool := decide (h ≠ h' ∧ h > h')
+
 /-- ids on both sides with different heads (`Diff`) -/
 def specChanged (my other : List (Nat × Nat)) : List Nat :=
-  (my.filter fun e => match lookupHead other e.1 with | some h => h ≠ e.2 | none => false).map (·.1)
+  (my.filter (filterRel other relNe)).map (·.1)
 
-/-- … split by which head is greater (`CompareDiff`) -/
+/-- … split by which head is greater (`CompareDiff`): ours is not smaller -/
 def specOurChanged (my other : List (Nat × Nat)) : List Nat :=
-  (my.filter fun e => match lookupHead other e.1 with | some h => h ≠ e.2 ∧ ¬ h > e.2 | none => false).map (·.1)
+  (my.filter (filterRel other relOur)).map (·.1)
 
+/-- … theirs is greater -/
 def specTheirChanged (my other : List (Nat × Nat)) : List Nat :=
-  (my.filter fun e => match lookupHead other e.1 with | some h => h ≠ e.2 ∧ h > e.2 | none => false).map (·.1)
+  (my.filter (filterRel other relTheir)).map (·.1)
 
 /-- the canonical index for a sorted element list -/
 def canon {D} (A : DigAlg D) (S : Splitter) (p : Params) (sl : List Elem) : Index D := ⟨p, sl, buildTop A S p sl⟩
